@@ -381,7 +381,8 @@ class Response:
             if self.is_chunked():
                 chunk_size = "%X\r\n" % nbytes
                 self.sock.sendall(chunk_size.encode('utf-8'))
-            self.sock.sendfile(respiter.filelike, offset=offset, count=nbytes)
+            sent = self.sock.sendfile(respiter.filelike, offset=offset, count=nbytes)
+            self.sent += sent if sent is not None else nbytes
             if self.is_chunked():
                 self.sock.sendall(b"\r\n")
 
